@@ -249,6 +249,9 @@ func genAnchoredOps(t *rapid.T, published bool, label string) ([]*operation.Anch
 			ProtocolVersion: uint64(rapid.IntRange(0, 2).Draw(t, label+"-ver"))}
 		if published {
 			op.CanonicalReference = fmt.Sprintf("uEiRef%d", i)
+			if rapid.IntRange(0, 5).Draw(t, label+"-noRef") == 0 {
+				op.CanonicalReference = "" // the empty reference is a reference like any other: one entry for all of them
+			}
 			if rapid.Bool().Draw(t, label+"-eq") {
 				op.EquivalentReferences = []string{"eq" + itoa(i), "hl:x"}
 			}
